@@ -6,6 +6,7 @@ Reads <repo>/net/net.go and writes <gendir>/NetConsts.v with
   * msg_type_none/discovery/mpc   the MsgType constants (iota block)
   * topic_types         the message types mapped to true in the shouldHaveTopic table (sorted)
   * send_timeout_panics syntactic flag: the onTimeout closure of SocketRemoteParties.Send contains a panic call
+  * single_writer_once_guarded syntactic flag: the writer goroutine of a destination is started only through a sync.Once
 The file is only rewritten when its content changes (so that an unchanged tree does not trigger a rebuild).
 Anything it cannot parse is an error (exit 1): a silent default would hide an edit of the Go source."""
 import os, re, sys
@@ -101,14 +102,30 @@ def parse(src):
         raise ValueError("onTimeout closure of Send not found")
     ot = block_after(body, m.end() - 1)
     panics = bool(re.search(r"\bpanic\s*\(", ot))
-    return consts, sorted(set(topic)), panics
+    # single writer per destination: sendMessages is started from exactly one site, inside startOnce, guarded by a sync.Once
+    # field of the destination object, and Send reaches it only through startOnce
+    m = re.search(r"\bfunc\s*\(\s*rp\s+\*remoteParty\s*\)\s*startOnce\s*\(\s*\)\s*\{", src)
+    if not m:
+        raise ValueError("remoteParty.startOnce not found")
+    so = re.sub(r"\s+", "", block_after(src, m.end() - 1))
+    m = re.search(r"\btype\s+remoteParty\s+struct\s*\{", src)
+    if not m:
+        raise ValueError("type remoteParty not found")
+    fields = block_after(src, m.end() - 1)
+    once_fields = re.findall(r"^\s*(\w+)\s+sync\.Once\s*$", fields, re.M)
+    starts = len(re.findall(r"\bgo\s+\w+\.sendMessages\s*\(", src))
+    calls = len(re.findall(r"\.sendMessages\s*\(", src))     # the method declaration has no leading dot
+    single = (starts == 1 and calls == 1 and
+              any(so == "rp.%s.Do(func(){gorp.sendMessages()})" % f for f in once_fields) and
+              bool(re.search(r"\bp\.startOnce\(\)", body)))
+    return consts, sorted(set(topic)), panics, single
 
 
 def main():
     repo, gendir = sys.argv[1], sys.argv[2]
     src = open(os.path.join(repo, "net", "net.go"), encoding="utf-8").read()
     try:
-        consts, topic, panics = parse(src)
+        consts, topic, panics, single = parse(src)
     except Exception as e:  # noqa
         print("gen_netconsts: %s" % e)
         sys.exit(1)
@@ -129,6 +146,10 @@ def main():
         "",
         "(* syntactic: the onTimeout closure of SocketRemoteParties.Send contains a panic call *)",
         "Definition send_timeout_panics : bool := %s." % ("true" if panics else "false"),
+        "",
+        "(* syntactic: sendMessages is started at exactly one site, `rp.<f>.Do(func() { go rp.sendMessages() })` in startOnce with",
+        "   <f> a sync.Once field of remoteParty, and Send calls startOnce: at most one writer goroutine per destination object *)",
+        "Definition single_writer_once_guarded : bool := %s." % ("true" if single else "false"),
         "",
     ])
     os.makedirs(gendir, exist_ok=True)
